@@ -15,6 +15,8 @@ TRUSTED = [
     'key parts are modelled by their str() images (lists of code points); that str() is injective on the values of one key column (int, str) is assumed, not proved',
     'hand-written model Model/C31Bag.v of the traversal of Bag.to_dict/_process_object (which given object ends up with / without its collections), tied by correspondence on generated '
     'object graphs with the real iteration order of bag.objects',
+    'whether Entity.to_dict / Bag.to_dict flush the whole session first is scanned from source (Gen/C31Reduce.v); the key model Model/C31Flush.v is tied by correspondence on '
+    'scenarios with pending members of cached collections',
     'to_dict / to_json / pickle round trips are checked by differential search against a Python shadow of the session state (no theorem)',
 ]
 ASSUMPTIONS = [
@@ -28,7 +30,7 @@ RULE = ('correspondence: every tuple of 1..3 key parts over the strings of lengt
         '0-2 C each, 0-3 pending modifications, a shuffled subset of objects given) + one scenario with all 36 key pairs over six colliding-looking parts. '
         'non-trivial = key contains an escape or separator character / scenario has pending modifications or more than one given object; distinct = distinct canonical inputs')
 
-HEADER = 'Require Import PonyV.Base.PyBase PonyV.Model.C31Codec PonyV.Gen.C31Reduce PonyV.Model.C31Bag.\nOpen Scope Z_scope.\n'
+HEADER = 'Require Import PonyV.Base.PyBase PonyV.Model.C31Codec PonyV.Gen.C31Reduce PonyV.Model.C31Bag PonyV.Model.C31Flush.\nOpen Scope Z_scope.\n'
 
 def czs(s):
     return '[' + '; '.join(str(ord(c)) for c in s) + ']' if s else '(@nil Z)'
@@ -122,6 +124,84 @@ def all_pairs_scenario():
     parts = ['a', 'a,b', 'b', 'a*', ',b', '*,b']
     b = [[k1, k2, None, i] for i, (k1, k2) in enumerate(itertools.product(parts, repeat=2))]
     return {'a': [['x', 1]], 'b': b, 'c': [[i, 0, ''] for i in range(0, len(b), 5)], 'mods': [], 'given': [['b', i] for i in range(len(b))]}
+
+
+
+# ------------------------------------------------------------------------------------------------ pending members of cached collections
+
+PENDING_FIXED = [
+    {'groups': 2, 'courses': 2, 'students': [[0, [0]]], 'preload': [['g', 0]], 'mods': [['new_s', 0, []]], 'probe': [['g', 0]], 'related_objects': False},
+    {'groups': 2, 'courses': 2, 'students': [[0, [0]]], 'preload': [['g', 1]], 'mods': [['new_s', 1, []]], 'probe': [['g', 1]], 'related_objects': False},
+    {'groups': 2, 'courses': 2, 'students': [[0, [0]]], 'preload': [['k', 1]], 'mods': [['new_s', None, [1]]], 'probe': [['k', 1]], 'related_objects': False},
+    {'groups': 2, 'courses': 2, 'students': [[0, [0]]], 'preload': [], 'mods': [['new_s', 0, []], ['new_k', [1]]], 'probe': [['s', 1]], 'related_objects': False},
+    {'groups': 2, 'courses': 2, 'students': [[0, [0]]], 'preload': [['g', 0]], 'mods': [['new_s', 0, []]], 'probe': [['g', 0]], 'related_objects': True},
+    {'groups': 1, 'courses': 1, 'students': [], 'preload': [], 'mods': [['new_g'], ['new_s', 1, [0]], ['new_s', 1, []]], 'probe': [['g', 1], ['k', 0]], 'related_objects': False},
+    {'groups': 2, 'courses': 1, 'students': [[0, []], [1, [0]]], 'preload': [['g', 0], ['g', 1], ['k', 0]], 'mods': [['move_s', 1, 0], ['new_s', 1, [0]], ['enroll', 0, 0]],
+     'probe': [['g', 0], ['g', 1], ['k', 0], ['s', 2]], 'related_objects': False},
+]
+
+def gen_pending(rng):
+    n_g, n_k = rng.randint(1, 3), rng.randint(1, 3)
+    studs = [[rng.choice([None] + list(range(n_g))), sorted(rng.sample(range(n_k), rng.randint(0, n_k)))] for _ in range(rng.randint(0, 3))]
+    pool = [['g', i] for i in range(n_g)] + [['k', i] for i in range(n_k)] + [['s', i] for i in range(len(studs))]
+    preload = [list(x) for x in rng.sample(pool, rng.randint(0, len(pool)))]
+    mods, ns, ng, nk = [], len(studs), n_g, n_k
+    for _ in range(rng.randint(1, 4)):
+        t = rng.choice(['new_s', 'new_s', 'new_k', 'new_g', 'move_s', 'enroll'])
+        if t == 'new_s': mods.append([t, rng.choice([None] + list(range(ng))), sorted(rng.sample(range(nk), rng.randint(0, min(nk, 2))))]); ns += 1
+        elif t == 'new_k' and ns: mods.append([t, sorted(rng.sample(range(ns), rng.randint(0, min(ns, 2))))]); nk += 1
+        elif t == 'new_g': mods.append([t]); ng += 1
+        elif t == 'move_s' and ns: mods.append([t, rng.randrange(ns), rng.choice([None] + list(range(ng)))])
+        elif t == 'enroll' and ns: mods.append([t, rng.randrange(ns), rng.randrange(nk)])
+    pool = [['g', i] for i in range(ng)] + [['k', i] for i in range(nk)] + [['s', i] for i in range(ns)]
+    probe = [list(x) for x in rng.sample(pool, rng.randint(1, len(pool)))]
+    return {'groups': n_g, 'courses': n_k, 'students': studs, 'preload': preload, 'mods': mods, 'probe': probe, 'related_objects': rng.random() < 0.3}
+
+
+def pending_members(sc):
+    """Run a pending-members scenario and return, per probed collection: member numbers (in order of their final keys), their keys
+    before to_dict (None = pending), the keys the database assigns, and the list the real to_dict reported."""
+    from pony import orm
+    db, G, S, K = I.make_db2()
+    studs = [{'group': g, 'courses': set(cs)} for g, cs in sc['students']]
+    n_g, n_k = sc['groups'], sc['courses']
+    with orm.db_session:
+        gobj = [G(number=i + 1) for i in range(n_g)]
+        kobj = [K(name='k%d' % (i + 1)) for i in range(n_k)]
+        orm.flush()
+        for i, st in enumerate(studs):
+            S(name='s%d' % (i + 1), group=None if st['group'] is None else gobj[st['group']], courses=[kobj[c] for c in sorted(st['courses'])]); orm.flush()
+    out = []
+    try:
+        with orm.db_session:
+            gobj = [G[i + 1] for i in range(n_g)]; kobj = [K[i + 1] for i in range(n_k)]; sobj = [S[i + 1] for i in range(len(studs))]
+            pick = lambda kind, i: {'g': gobj, 'k': kobj, 's': sobj}[kind][i]
+            for kind, i in sc.get('preload', []): pick(kind, i).to_dict(with_collections=True)
+            old_s, old_k = len(sobj), len(kobj)
+            for m in sc.get('mods', []):
+                t = m[0]
+                if t == 'new_s':
+                    studs.append({'group': m[1], 'courses': set(m[2])}); sobj.append(S(name='n', group=None if m[1] is None else gobj[m[1]], courses=[kobj[c] for c in m[2]]))
+                elif t == 'new_k':
+                    kobj.append(K(name='k', students=[sobj[x] for x in m[1]]))
+                    for x in m[1]: studs[x]['courses'].add(len(kobj) - 1)
+                elif t == 'new_g': gobj.append(G(number=len(gobj) + 1))
+                elif t == 'move_s': sobj[m[1]].group = None if m[2] is None else gobj[m[2]]; studs[m[1]]['group'] = m[2]
+                elif t == 'enroll': sobj[m[1]].courses.add(kobj[m[2]]); studs[m[1]]['courses'].add(m[2])
+            for kind, i in sc['probe']:
+                if kind == 'g': members, base, attr = [x for x in range(len(studs)) if studs[x]['group'] == i], old_s, 'students'
+                elif kind == 'k': members, base, attr = [x for x in range(len(studs)) if i in studs[x]['courses']], old_s, 'students'
+                else: members, base, attr = sorted(studs[i]['courses']), old_k, 'courses'
+                pks = {o: (o + 1 if o < base else None) for o in members}
+                assign = {o: o + 1 for o in members}
+                try: real = pick(kind, i).to_dict(with_collections=True)[attr]
+                except Exception: continue
+                out.append((members, pks, assign, list(real), [kind, i, attr]))
+                break           # the first to_dict flushes: later probes of this session see no pending objects
+            orm.rollback()
+    except Exception:
+        return None
+    return out
 
 
 def bag_marks(sc):
@@ -223,6 +303,18 @@ def correspondence(ctx):
         n_tr += 1
         if len(samples) < 3 and len(order) > 2: samples.append({'bag_order': order, 'relations': rel, 'marks': marks})
 
+    # (4) Entity.to_dict(with_collections=True): keys reported for collection members, pending ones included
+    for sc in PENDING_FIXED + [gen_pending(rng) for _ in range(ctx.scale(60, 600))]:
+        r = pending_members(sc)
+        if r is None: continue
+        for members, pks, assign, real, label in r:
+            arms = lambda d: ' '.join('| %d%%nat => %s' % (o, v) for o, v in d.items())
+            pkc = '(fun o => match o with %s | _ => None end)' % arms({o: ('None' if pks[o] is None else '(Some %d)' % pks[o]) for o in members})
+            asc = '(fun o => match o with %s | _ => 0 end)' % arms({o: '%d' % assign[o] for o in members})
+            realc = '[' + '; '.join('None' if x is None else '(Some %d)' % x for x in real) + ']' if real else '(@nil (option Z))'
+            add('to_dict_pending', 'ozlist_eqb (reported_members %s %s (fun _ => false) [%s]) %s' % (asc, pkc, '; '.join('%d%%nat' % o for o in members), realc),
+                {'scenario': sc, 'collection': label}, real, nt=any(pks[o] is None for o in members))
+
     bad = run_bools(ctx, exprs)
     for i in bad[:20]:
         kind, inp, impl = meta[i]
@@ -293,12 +385,26 @@ def search(ctx, deep):
             f = failure_of(sc, cls, detail if isinstance(detail, dict) else {'detail': detail})
             per_key[f.key] = per_key.get(f.key, 0) + 1
             if per_key[f.key] == 1: failures.append(f)
+    pend = list(PENDING_FIXED) + [gen_pending(ctx.rng) for _ in range(3000 if deep else 250)]
+    for sc in pend:
+        res = I.check_pending(sc)
+        evals += 1
+        for m in sc['mods']: dist['mods'][m[0]] = dist['mods'].get(m[0], 0) + 1
+        nontriv.add(json.dumps(sc, sort_keys=True))
+        for cls, detail in res:
+            f = Failure('unlisted:' + cls, '%s: %s' % (cls, json.dumps(detail, default=str)[:300]), {'pending_scenario': sc, 'class': cls})
+            per_key[f.key] = per_key.get(f.key, 0) + 1
+            if per_key[f.key] == 1: failures.append(f)
     dist['failing_checks_by_key'] = per_key
     return Search(evaluations=evals, failures=failures, nontrivial=len(nontriv), distribution=dist, exhaustive=False,
                   samples=[{'scenario': scs[-1], 'oracle': 'Python shadow of the session state; keys decoded with the reference decoder'}])
 
 
 def replay(ctx, data):
+    if 'pending_scenario' in data:
+        for cls, detail in I.check_pending(data['pending_scenario']):
+            return Failure('unlisted:' + cls, '%s: %s' % (cls, json.dumps(detail, default=str)[:300]), data)
+        return None
     sc = data['scenario']
     res = I.check(sc)
     want = data.get('class')
